@@ -187,8 +187,16 @@ def run_case(cfg):
     purl = "%s://%s:%d" % (cfg["ps"], PROXY_HOST, PROXY_PORT)
     with net, warnings.catch_warnings():
         warnings.simplefilter("ignore")
+        kw = {}
+        if cfg.get("ctx") == "shared":
+            # ONE SSLContext for the proxy layer and for the destination layer, and a proxy-side setting
+            # (proxy_assert_hostname) that makes urllib3 switch check_hostname off on that context while it
+            # verifies the proxy: the destination's name must be verified all the same
+            from urllib3.util.ssl_ import create_urllib3_context
+            ctx = create_urllib3_context()
+            kw = {"proxy_ssl_context": ctx, "ssl_context": ctx, "proxy_assert_hostname": PROXY_HOST}
         pm = urllib3.ProxyManager(purl, proxy_headers=PROXY_HEADERS[cfg["ph"]],
-                                  use_forwarding_for_https=cfg["fwd"])
+                                  use_forwarding_for_https=cfg["fwd"], **kw)
         try:
             for i in range(len(cfg["hist"])):
                 s0, c0 = len(net.socks), len(net.connects)
@@ -606,6 +614,22 @@ def cases_of(task):
             for retries in retr:
                 yield {"ps": ps, "ds": ds, "fwd": fwd, "fault": fault, "fat": fat, "cok": cok, "ph": ph, "rh": rh,
                        "hf": hf, "hist": hist, "retries": retries}
+    for cfg in _shared_ctx_cases(task):
+        yield cfg
+
+
+SHARED_CTX_HISTORIES = ["K", "CK"]
+
+
+def _shared_ctx_cases(task):
+    """https proxy + tunnelled https destination with one shared SSLContext and proxy_assert_hostname set"""
+    (ps, ds, fwd, fault, cok), fat, ph, rh, thorough = task
+    if ps != "https" or ref_mode(ps, ds, fwd) != "tunnel" or ph != "none" or rh != "none" or cok != "200":
+        return
+    for hf in ("name", "ipv4"):
+        for hist in (SHARED_CTX_HISTORIES if fat != "all" else ["K"]):
+            yield {"ps": ps, "ds": ds, "fwd": fwd, "fault": fault, "fat": fat, "cok": cok, "ph": ph, "rh": rh,
+                   "hf": hf, "hist": hist, "retries": False, "ctx": "shared"}
 
 
 QUICK_SHORT_HISTORIES = ["K", "C", "S", "KK", "CK", "SK"]
@@ -624,7 +648,7 @@ def _hists(thorough, fat, hf):
 def size_of(task):
     _row, fat, _ph, _rh, thorough = task
     hfs = list(HOSTFORMS) if thorough else QUICK_HOSTFORMS
-    return sum(len(_hists(thorough, fat, hf)) for hf in hfs) * (3 if thorough else 2)
+    return sum(len(_hists(thorough, fat, hf)) for hf in hfs) * (3 if thorough else 2) + len(list(_shared_ctx_cases(task)))
 
 
 def _worker(task):
@@ -707,14 +731,78 @@ def conformance(acc):
 
 
 # ------------------------------------------------------------------------------- entry points
+# ------------------------------------------------------------------------------- redirects that change the routing mode
+# A redirect from an http:// URL (forwarded) to an https:// URL (tunnelled), or back, makes ONE caller request travel
+# in both modes. The per-message rules are the same: proxy headers in every message addressed to the proxy (forwarded
+# requests, CONNECT), never inside a tunnel. Driver: the stateless chain server of mc/c05_chains.py behind
+# ProxyManager(proxy_headers=...); chains of 1-2 hops over every Location form, all five redirect codes.
+def redirect_tasks(thorough):
+    from mc import c05_chains as G
+    sts = (301, 302, 303, 307, 308) if thorough else (302, 307)
+    forms = [f for f in G.FORMS if f not in G.TERMINAL_FORMS]
+    chs = list(G.chains(G.hopcodes(sts, forms), 2, 1))
+    out = []
+    for start in ("had", "sad"):
+        for ph in ("pa", "pa+xp"):
+            for rh in ("none", "auth"):
+                for method in ("GET", "POST"):
+                    for i in range(0, len(chs), 150):
+                        out.append((start, ph, rh, method, tuple(chs[i:i + 150])))
+    return out
+
+
+def run_redirects(task):
+    from mc import c05_chains as G
+    start, ph, rh, method, chs = task
+    acc = Acc()
+    pheaders = PROXY_HEADERS[ph]
+    pnames = {k.lower() for k in pheaders}
+    rheaders = REQUEST_HEADERS[rh]
+    for hops in chs:
+        case = {"client": "ProxyManager", "start": start, "hops": hops, "mode": "c", "method": method,
+                "body": b"body-secret" if method == "POST" else None, "proxy_headers": pheaders,
+                "headers": [list(kv) for kv in rheaders.items()] if rheaders else None}
+        res = G.execute(case)
+        acc.n += 1
+        modes = set()
+        for j, q in enumerate(res["requests"]):
+            if "connect" in q:
+                continue
+            modes.add(q["via"])
+            have = {}
+            for k, v in q["headers"]:
+                have.setdefault(k.lower(), []).append(v)
+            if q["via"] == "tunnel":
+                leaked = sorted(n for n in pnames if n in have) + sorted(
+                    k for k, vs in have.items() if any(PTOK in v or XPTOK in v for v in vs) and k not in pnames)
+                if leaked:
+                    acc.violation("proxy-header-inside-tunnel", {"mode": "redirect:forward->tunnel" if "proxy" in modes else "redirect:tunnel",
+                                                                 "ps": "http", "fault": "none", "hdr": leaked[0]},
+                                  dict(case, kind="redirect"), observed={"request": j, "headers": q["headers"]},
+                                  expected="no proxy header inside a tunnel")
+            elif q["via"] == "proxy":
+                missing = sorted(n for n in pnames if have.get(n) != [pheaders[next(k for k in pheaders if k.lower() == n)]])
+                if missing:
+                    acc.violation("proxy-header-missing-on-forwarded-request", {"mode": "redirect", "ps": "http", "fault": "none", "hdr": missing[0]},
+                                  dict(case, kind="redirect"), observed={"request": j, "headers": q["headers"]},
+                                  expected="each configured proxy header exactly once")
+        acc.counters["redirect_chains"] += 1
+        if modes >= {"proxy", "tunnel"}:
+            acc.counters["redirect_chains_crossing_modes"] += 1
+        acc.outcomes[("redirect", "ok" if res["outcome"]["kind"] == "response" else "exc", tuple(sorted(modes)), "none")] += 1
+    return acc
+
+
 def run(ctx):
     simnet.install()
     tasks = tasks_for(ctx.thorough)
     acc = ctx.gather(_worker, tasks, chunksize=2)
+    rtasks = redirect_tasks(ctx.thorough)
+    acc.merge(ctx.gather(run_redirects, rtasks))
     nconf = conformance(acc)
     c = acc.counters
     ntasks = len(tasks)
-    expected_n = sum(size_of(t) for t in tasks)
+    expected_n = sum(size_of(t) for t in tasks) + sum(len(t[4]) for t in rtasks)
     cov = {
         "distinct_nontrivial": c["distinct_nontrivial"],
         "exhaustive": acc.n == expected_n,
@@ -730,6 +818,7 @@ def run(ctx):
                     "{False,1,2}" if ctx.thorough else "{False,1}"),
         "rows": len(rows(ctx.thorough)), "tasks": ntasks, "table_size": expected_n,
         "standin_conformance_cases": nconf,
+        "redirect_family": {"chains": c["redirect_chains"], "crossing_modes": c["redirect_chains_crossing_modes"]},
         "pruned": rows.__doc__.split("pruning what cannot matter:")[1].strip(),
     }
     fault_kinds = list(PCERT_FAULTS) + list(OCERT_FAULTS) + list(CONNECT_FAIL)
@@ -755,11 +844,17 @@ def run(ctx):
                    (c["behaviour:K"] > 0 and c["behaviour:C"] > 0 and c["behaviour:S"] > 0, "all server behaviours used"),
                    (c["zone-id-spelling:as-written"] + c["zone-id-spelling:decoded"] > 0, "zone id host form reached the wire"),
                    (nconf >= 24, "stub/real TLS conformance cases ran"),
+                   (c["redirect_chains_crossing_modes"] > 100, "redirects that switch between forwarding and tunnelling hardly exercised"),
                ])
 
 
 def replay(case):
     simnet.install()
+    if case.get("kind") == "redirect":
+        ph = next(k for k, v in PROXY_HEADERS.items() if v == case["proxy_headers"])
+        rh = next(k for k, v in REQUEST_HEADERS.items() if (v or None) == (dict(case["headers"]) if case["headers"] else None))
+        acc = run_redirects((case["start"], ph, rh, case["method"], (case["hops"],)))
+        return {"violations": acc.viol}
     cfg = dict(case)
     if isinstance(cfg.get("fat"), str) and cfg["fat"].isdigit():
         cfg["fat"] = int(cfg["fat"])
